@@ -49,6 +49,7 @@ def check(rep: Report, ctx: Ctx) -> None:
     r47(rep, ctx)
     r48(rep, ctx)
     r49(rep, ctx)
+    r410(rep, ctx)
 
 
 def r47(rep: Report, ctx: Ctx) -> None:
@@ -769,3 +770,32 @@ def r49(rep: Report, ctx: Ctx) -> None:
                    "the same arguments and mutated by the first" if shared
                    else ""))
     rep.analysed["memoised_functions"] = n
+
+
+def r410(rep: Report, ctx: Ctx) -> None:
+    """Updating a saved model equals learning from all data at once only if
+    the model on disk IS the model of the last run: a save that fails must
+    fail the run.  A handler that logs and carries on leaves the previous
+    file in place - loadable, stale - and the next run silently forgets a
+    whole chunk (seed C04-z)."""
+    from .util import swallowed_io, swallowing_handlers
+    rep.rule("R4.10", "a model file that cannot be written aborts the run "
+             "(no handler completes normally around the write)", 2)
+    saver = ctx.func("save_events_to_file")
+    entry = ctx.func("pv_streams_to_puml_files")
+    bad = swallowed_io(ctx, saver)
+    rep.ob("R4.10", "the writer lets an I/O error through", not bad,
+           fi=bad[0][0] if bad else saver,
+           node=bad[0][1] if bad else saver.node,
+           detail=(f"handler '{unparse(bad[0][1])[:60]}' in {bad[0][0].short} "
+                   "completes normally after a failed write: the run reports "
+                   "success and the old model file stays on disk" if bad else
+                   "no try around open / json.dump in the writer's closure"))
+    bad2, n_try = swallowing_handlers(ctx, entry, {saver.qualname})
+    rep.ob("R4.10", "no caller swallows a failed save", not bad2,
+           fi=bad2[0][0] if bad2 else entry,
+           node=bad2[0][1] if bad2 else entry.node,
+           detail=(f"handler '{unparse(bad2[0][1])[:60]}' in "
+                   f"{bad2[0][0].short}" if bad2 else
+                   f"{n_try} try statement(s) in the closure of "
+                   f"{entry.short}, none around the save"))
